@@ -164,3 +164,9 @@ Theorem C03_code_clear_did_interpret : forall did d r p, fn_clear_did_request di
   fn_clear_did_interpret did d = dddi_interpret 3 (Some did) true r.
 Proof. exact tie_clear_did_interpret. Qed.
 Print Assumptions C03_code_clear_did_interpret.
+
+From UDS Require Import Proofs.Tie_commctl.
+Theorem C03_code_communication_control_interpret : forall ct v node d r p, fn_communication_control_request ct v node = inr p -> d <> [] -> p_data r = d ->
+  fn_communication_control_interpret ct v node d = echo1_interpret ct r.
+Proof. exact tie_communication_control_interpret. Qed.
+Print Assumptions C03_code_communication_control_interpret.
